@@ -186,7 +186,9 @@ def judge(case):
             fails.append(("fill_in_map-crashed:" + od[1], {"error": od[2]}))
     # (b) let substitution with an override of a name that some macro parameter shadows
     ov = case.get("ov")
-    if ov and not fails:
+    if ov is None and not fails and case.get("no_ov_fill", True):
+        ov = {}  # let substitution with the declared values: the same binding questions arise
+    if ov is not None and not fails:
         try:
             M.validate(km, ov)
             want_b = M.meaning(km, expand_macros=False, env=ov, expand_a1=True)
